@@ -83,6 +83,13 @@ func RunC01Concurrent(tier string, seed int64) int {
 			}
 		}()
 		var failed atomic.Value
+		// Retrying is decided on logical progress, not on a number of rounds: the last peer holds
+		// every header, so a full round of it in which nothing it holds was accepted while no
+		// other peer's submission returned nil either means some header whose parent is accepted
+		// was refused as unknown. The other peers (whose subsets may lack parents) simply retry
+		// until the last peer is done, then every header they still hold must be known.
+		var progress int64 // submissions that returned nil, all peers
+		var fullDone, abort int32
 		for g := 0; g < k; g++ {
 			// each peer gets a random ~60% subset, last peer gets everything (so all arrive)
 			var mine []*wire.BlockHeader
@@ -93,16 +100,22 @@ func RunC01Concurrent(tier string, seed int64) int {
 			}
 			rng.Shuffle(len(mine), func(i, j int) { mine[i], mine[j] = mine[j], mine[i] })
 			wg.Add(1)
-			go func(mine []*wire.BlockHeader) {
+			go func(mine []*wire.BlockHeader, full bool) {
 				defer wg.Done()
+				if full {
+					defer atomic.StoreInt32(&fullDone, 1)
+				}
 				pending := mine
-				for round := 0; round < 400 && len(pending) > 0; round++ {
+				for len(pending) > 0 && atomic.LoadInt32(&abort) == 0 {
+					final := !full && atomic.LoadInt32(&fullDone) == 1
+					before := atomic.LoadInt64(&progress)
 					var next []*wire.BlockHeader
 					for _, hd := range pending {
 						var err error
 						pan := safe(func() { err = repo.ProcessHeader(ctx, hd) })
 						if pan != "" {
 							failed.Store("panic: " + pan)
+							atomic.StoreInt32(&abort, 1)
 							return
 						}
 						if err != nil {
@@ -111,15 +124,27 @@ func RunC01Concurrent(tier string, seed int64) int {
 								continue
 							}
 							failed.Store(fmt.Sprintf("unexpected answer %q (%v)", errClass(err), err))
+							atomic.StoreInt32(&abort, 1)
 							return
 						}
+						atomic.AddInt64(&progress, 1)
+					}
+					if len(next) == len(pending) {
+						if final {
+							failed.Store(fmt.Sprintf("%d headers refused as unknown after the peer holding every header had all of them accepted", len(next)))
+							atomic.StoreInt32(&abort, 1)
+							return
+						}
+						if full && atomic.LoadInt64(&progress) == before {
+							failed.Store(fmt.Sprintf("%d headers all refused as unknown in a round during which no submission of any peer was accepted (one of them has an accepted parent)", len(next)))
+							atomic.StoreInt32(&abort, 1)
+							return
+						}
+						runtime.Gosched()
 					}
 					pending = next
 				}
-				if len(pending) > 0 {
-					failed.Store(fmt.Sprintf("%d headers still refused as unknown after 400 rounds", len(pending)))
-				}
-			}(mine)
+			}(mine, g == k-1)
 		}
 		wg.Wait()
 		close(stop)
